@@ -261,3 +261,14 @@ def lonely(u, rng):
     v["ew"] = list(z["ew"])
     v["ew"][i] = rng.choice([2, 3, 5])
     return v, list(z["edges"][i])
+
+
+def scc_edges(u):
+    """the edges of u that lie inside a strongly connected component (self-loops included)"""
+    import networkx as nx
+    G = nx.DiGraph([tuple(e) for e in u["edges"]])
+    comp = {}
+    for i, c in enumerate(nx.strongly_connected_components(G)):
+        for v in c:
+            comp[v] = i
+    return [list(e) for e in u["edges"] if comp[e[0]] == comp[e[1]]]
